@@ -62,6 +62,7 @@ def gate (j : Json) : Except String Json := do
   | "quartic" => .ok (ofMat (quartic (rr 0, rr 1, gg 0) (rr 2, rr 3, gg 1) (rr 4, rr 5, gg 2)))
   | "cubicSingle" => .ok (ofMat (cubicSingle k (rr 0, rr 1, gg 0)))
   | "cubicGenerator" => .ok (ofMat (cubicGenerator (gg 0) (gg 1) (gg 2)))
+  | "quarticGenerator" => .ok (ofMat (quarticGenerator (gg 0) (gg 1) (gg 2)))
   | s => .error s!"unknown gate {s}"
 
 def occ (j : Json) : Except String Json := do
